@@ -171,6 +171,57 @@ CLAIMS["C08"] = dict(
          "(the release-profile fence reordering found natively is outside what the engine models).",
     technique=E12 + "; symbolic preemption / crash point via the access hook", design_ref="4 C08", e2=True)
 
+CLAIMS["C02"] = dict(
+    text="(i) Non-interference of claims: an append's only access to shared meta data is the fetch-add on the tail, and every later "
+         "access lies inside the byte range that fetch-add handed out (access trace over the real appender, any tail offset) - other "
+         "publishers influence it only through the returned value. (ii) One preemption at publication level: the real "
+         "Publication::offer_opt of publisher A with COMPLETE offers of publisher B (incl. B tripping the term end, rotating and "
+         "retrying) injected before A's access number j: both accepted in distinct, intact, gap-free frames with consistent "
+         "positions; or exactly one padding frame, exactly one rotation, and each publisher either placed or told to retry.",
+    note="Context-bounded: 2 publishers, ONE preemption, j concrete per instance (before limit read / before tail read / before and "
+         "after the fetch-add / before commit; 4 quick + 5 thorough instances), sequentially consistent memory, term 512 B; 3 "
+         "publishers, >= 2 preemptions and weak-memory reorderings of the RMWs are NOT decided. Crash of one publisher: see C03.",
+    technique=E1 + " with an injected second publisher via the access hook", design_ref="4 C02")
+CLAIMS["C09"] = dict(
+    text="PARTIAL. For counters, subscriptions, publications and exclusive publications on a struct-literal conductor with a real "
+         "DriverProxy/ring: add sends exactly one well-formed command (independent decoder) with a fresh correlation id and returns "
+         "it; answers for foreign ids are ignored; a driver error is reported once and then the registration is gone; an unanswered "
+         "registration is 'not ready' until exactly the driver timeout has passed (symbolic clock, boundary covered) and a driver "
+         "timeout afterwards; release sends exactly one remove command with a fresh id and a second release sends nothing.",
+    note="NOT decided: 'ready event -> lookup yields the usable resource, the same one on repeated lookups' and release-by-drop - every "
+         "path on which a handle (Arc<Counter>, Arc<Mutex<Subscription>>, publication) exists drags the destructor glue of a whole "
+         "ClientConductor into symex and does not finish (25 min / 24 GB, see DESIGN 9.2); destinations; mixed kinds in one history; "
+         "client-close on conductor drop. Histories of length 3, one resource at a time, ids concrete.",
+    technique=E1, design_ref="4 C09, 9.2")
+CLAIMS["C10"] = dict(
+    text="PARTIAL. (a) A duty cycle on a conductor whose broadcast receiver has been lapped reports the loss through its result, keeps "
+         "the driver listener, and the next duty cycle processes the next event; (b) a client-timeout event for this client (with an "
+         "Awaiting counter / subscription / publication or none) closes everything once: error handler and close handlers fire "
+         "exactly once, registrations are dropped, later API calls return ClientConductorClosed and write nothing, a second timeout "
+         "and an orderly close fire nothing again; a timeout for a foreign client id is ignored.",
+    note="NOT applicable / not decided: 'returns in bounded time / no hang' (re-entrant conductor mutex from handle destructors - Kani "
+         "has no model of blocking; recorded as an observation in DESIGN 9.3), closes with live handles or images, fault sequences "
+         "longer than two steps, AgentRunner.",
+    technique=E1, design_ref="4 C10, 9.2")
+CLAIMS["C12"] = dict(
+    text="PARTIAL. The linger arithmetic of the managed-resource check as a single step from an arbitrary (stamp, now, linger period) "
+         "state on the real conductor: a retired image list is kept exactly until more than the linger period has passed (boundary "
+         "and 'clock below linger period' covered).",
+    note="NOT decided: image available / unavailable notifications (need a live subscription handle, see C09 note), the HashMap path "
+         "of the same check for mapped log buffers (out of memory at 24 GB; same arithmetic, repaired together), and everything "
+         "about real mmap/munmap (FFI, not applicable).",
+    technique=E1, design_ref="4 C12, 9.2")
+CLAIMS["C20"] = dict(
+    text="Real Subscription::poll / controlled_poll over 2 (quick) and 3 (thorough) real Images for every rotation state, backlog "
+         "combination and any i32 fragment limit: delivered == returned <= limit == min(limit, backlog), each image polled at most "
+         "once per call and in stream order, every image with data served within n+1 calls (a twin claiming n fails), list shrink / "
+         "add_image between polls safe. FragmentAssembler: single-session reassembly (C01) and two interleaved sessions, a session "
+         "joined mid-message yields nothing until its next BEGIN; all payload bytes symbolic.",
+    note="Assembler flag patterns and interleavings are literal per instance (hashbrown probing is not constant-folded); two live "
+         "builders at once, the real remove_image, > 3 images, > 2 frames per image and symbolic session ids did not fit (out of "
+         "memory at 24 GB) and are not decided.",
+    technique=E1, design_ref="4 C20, 9.2")
+
 NOT_YET = "check not built yet in this session (planned in DESIGN.md section 4); no claim is made"
 NA = {}
 
